@@ -6,13 +6,12 @@ Models: FfcxModel/Cli/Options.lean (hand-written, tied to ffcx/options.py, ffcx/
 ffcx/formatting.py by the correspondence run of harness/props/c20.py) and the tables
 FfcxModel/Generated/{Options,Templates}.lean regenerated from /repo on every run.
 
-Status
-  merge_precedence, format_code_concat, sanitise_ident, decl_defined     full
-  cli_only_given_partial          partial: only for actions whose argparse default is None.
-      The full statement  ∀ FFCx option k, k ∈ priority_options ↔ k given on the command line
-      is FALSE for `store_true` options (argparse default False, not None — DESIGN §7 F7):
-      `cli_only_given_counterexample`, and its consequence `cli_overrides_json_counterexample`
-      (a `sum_factorization: true` of ffcx_options.json is always overridden by the CLI).
+Status: all full.
+  merge_precedence, cli_only_given (over the regenerated parser table: an FFCx option is in
+  `priority_options` iff the command line supplied it — this includes the `store_true` options since
+  their argparse default became None; a parser change that reintroduces a non-None default breaks
+  `cli_only_given_generated`), cli_not_given_falls_through, decl_defined, format_code_concat,
+  sanitise_ident, cli_alias_valid.
 -/
 import FfcxProofs.Lemmas.Names
 import FfcxModel.Generated.Options
@@ -119,10 +118,9 @@ theorem defaultsNs_nodup (acts : List Action) : (Dict.keys (defaultsNs acts)).No
   rw [defaultsNs_eq]
   exact foldDefaults_nodup acts [] (by simp [Dict.keys])
 
-/-- PARTIAL (`cli_only_given` for options whose argparse default is `None`): such a key is in
-`priority_options` iff the command line supplied it.
-Full statement (false, see the counterexample): the same for EVERY FFCx option. -/
-theorem cli_only_given_partial (acts : List Action) (given : Given) (k : String)
+/-- Core lemma: a key all of whose (non-suppressed) actions have default `None` is in
+`priority_options` iff the command line supplied it. -/
+theorem priority_iff_given (acts : List Action) (given : Given) (k : String)
     (hdef : ∀ a ∈ acts, a.dest = k → a.suppressed = false → a.default = Scalar.none)
     (hgiven : ∀ kv ∈ given, kv.2 ≠ Scalar.none) :
     k ∈ Dict.keys (priorityOptions acts given) ↔ k ∈ Dict.keys given := by
@@ -153,30 +151,51 @@ theorem cli_only_given_partial (acts : List Action) (given : Given) (k : String)
       rfl
 
 open Ffcx.Generated.Options in
-/-- On the parser of this tree: every FFCx option other than the `store_true` ones has default
-`None`, so `cli_only_given_partial` applies to it. -/
+/-- On the parser of this tree: EVERY action that writes an FFCx option — the `store_true` ones
+included — has argparse default `None`. -/
 theorem cli_only_given_generated :
-    ∀ a ∈ actions, a.ffcxOption = true → a.kind ≠ ActionKind.storeTrue →
-      a.suppressed = false ∧ a.default = Scalar.none := by
+    ∀ a ∈ actions, a.ffcxOption = true → ∀ b ∈ actions, b.dest = a.dest → b.default = Scalar.none := by
   decide
 
 open Ffcx.Generated.Options in
-/-- F7: with NOTHING on the command line, `sum_factorization` is in the priority dict
-(`store_true` ⇒ argparse default `False`, which is not `None`). -/
-theorem cli_only_given_counterexample :
-    "sum_factorization" ∈ Dict.keys (priorityOptions actions []) ∧
-    "sum_factorization" ∉ Dict.keys ([] : Given) ∧
-    (∃ a ∈ actions, a.dest = "sum_factorization" ∧ a.ffcxOption = true) := by
+/-- FULL: the priority dict built by `main` contains an FFCx option iff it was given on the command
+line (`given` holds converted values, never `None`). -/
+theorem cli_only_given (given : Given) (hgiven : ∀ kv ∈ given, kv.2 ≠ Scalar.none) :
+    ∀ a ∈ actions, a.ffcxOption = true →
+      (a.dest ∈ Dict.keys (priorityOptions actions given) ↔ a.dest ∈ Dict.keys given) :=
+  fun a ha hf => priority_iff_given actions given a.dest
+    (fun b hb hd _ => cli_only_given_generated a ha hf b hb hd) hgiven
+
+open Ffcx.Generated.Options in
+/-- FULL: an FFCx option that is not on the command line gets its value from
+`$PWD/ffcx_options.json`, else the user file, else the defaults — the command line never shadows it. -/
+theorem cli_not_given_falls_through (user pwd : Dict String Scalar) (given : Given)
+    (hgiven : ∀ kv ∈ given, kv.2 ≠ Scalar.none) :
+    ∀ a ∈ actions, a.ffcxOption = true → a.dest ∉ Dict.keys given →
+      Dict.get (mainOptions actions defaultDict user pwd given) a.dest =
+        (Dict.rlookup pwd a.dest).or ((Dict.rlookup user a.dest).or (Dict.rlookup defaultDict a.dest)) := by
+  intro a ha hf hng
+  unfold mainOptions
+  rw [merge_precedence]
+  have : a.dest ∉ Dict.keys (priorityOptions actions given) :=
+    fun h => hng ((cli_only_given given hgiven a ha hf).mp h)
+  rw [Dict.rlookup_none_iff.mpr this]
+  rfl
+
+open Ffcx.Generated.Options in
+example : "sum_factorization" ∉ Dict.keys (priorityOptions actions []) ∧
+    (∃ a ∈ actions, a.dest = "sum_factorization" ∧ a.ffcxOption = true ∧ a.kind = ActionKind.storeTrue) := by
   decide
 
 open Ffcx.Generated.Options in
-/-- …therefore a `"sum_factorization": true` in `$PWD/ffcx_options.json` (or the user file) never
-takes effect through the `ffcx` command: the merged value is the CLI's `False`, contradicting
-"command line > json > defaults" only for options actually given. -/
-theorem cli_overrides_json_counterexample :
-    Dict.get (mainOptions actions defaultDict [] [("sum_factorization", Scalar.bool true)] [])
-      "sum_factorization" = some (Scalar.bool false) := by
-  decide
+/-- `"sum_factorization": true` in `$PWD/ffcx_options.json` now takes effect without the flag … -/
+example : Dict.get (mainOptions actions defaultDict [] [("sum_factorization", Scalar.bool true)] [])
+    "sum_factorization" = some (Scalar.bool true) := by decide
+
+open Ffcx.Generated.Options in
+/-- … and the flag still wins when given. -/
+example : Dict.get (mainOptions actions defaultDict [("sum_factorization", Scalar.bool false)] []
+    [("sum_factorization", Scalar.bool true)]) "sum_factorization" = some (Scalar.bool true) := by decide
 
 open Ffcx.Generated.Options in
 example : Dict.get (mainOptions actions defaultDict [] [("scalar_type", Scalar.str (cs! "float32"))] [])
@@ -184,7 +203,7 @@ example : Dict.get (mainOptions actions defaultDict [] [("scalar_type", Scalar.s
 
 open Ffcx.Generated.Options in
 example : Dict.keys (priorityOptions actions [("scalar_type", Scalar.str (cs! "float32"))]) =
-    ["dir", "visualise", "profile", "scalar_type", "sum_factorization"] := by decide
+    ["dir", "visualise", "profile", "scalar_type"] := by decide
 
 /-! ## Header / source consistency of every generated block -/
 
